@@ -183,3 +183,16 @@ Example order_independent_nonvacuous :
 Proof.
   cbn. repeat split; auto; repeat constructor; cbn; intuition discriminate.
 Qed.
+
+(** The open finding, as a theorem about the engine's firing rule (Model/Cohort.v): in the witness
+    program the token game prescribes tasks 1, 2 and 3 after the outer fork, but the inner inclusive
+    fork may not fire — its cohort contains the sibling token, which never comes to it — neither at
+    once nor after task 3 is answered (the sibling then waits at the outer join, which in turn waits
+    for the inner block: a deadlock). *)
+From BV Require Import Model.Cohort.
+Lemma nested_inclusive_refuted :
+  let b := BIncl 0 1 (BIncl 0 1 (BTask 1) (BTask 2) BSkip) (BTask 3) BSkip in
+  let e := [true; true; false; false] in
+  pending (start e b) = [1; 2; 3] /\
+  may_fire after_outer_fork 2 0 = false /\ may_fire after_T3 2 0 = false /\ may_fire after_T3 4 1 = false.
+Proof. cbn. repeat split; reflexivity. Qed.
